@@ -14,7 +14,7 @@ from .. import boson, circmon, emumon
 from ..emumon import insert_heralds
 from ..gen import Builder, equivalent_variant
 from .c03 import random_state
-from .common import drain_into, merge_stats, setup
+from .common import drain_into, merge_stats, setup, too_big
 
 PROPERTY = "C05"
 RULE = ("seeded random configurations: circuit (0-3 heralds of 0-2 photons incl. in!=out, heralded library gates, "
@@ -111,7 +111,8 @@ def run(ctx):
         u = c.U_full
         n_loss = u.shape[0] - c.n_modes
         lossy = n_loss > 0
-        if n_loss > 4 or k == 0:
+        if n_loss > 4 or k == 0 or too_big(c):
+            ctx.count("skipped_size")
             continue
         ne = sorted(h["input"]) != sorted(h["output"])
         nph = int(rng.integers(1, 4))
@@ -198,6 +199,8 @@ def run(ctx):
         # under-reported by 1e-9 x (number of loss-mode patterns); ratios amplify that by 1/total
         trunc = 1e-9 * boson.n_fock(n_loss + 1, nph + hph)
         tol_abs = TOL + trunc
+        # the permanent backend books everything it dropped on the all-vacuum pattern of a lossy circuit
+        tol_vac = TOL + 1e-9 * boson.n_fock(u.shape[0], nph + hph)
 
         def visible(full):
             return [x for m, x in enumerate(full) if m not in herald_out]
@@ -226,7 +229,7 @@ def run(ctx):
                 bad = None
                 for i, a in enumerate(acc):
                     for j, o in enumerate(outs):
-                        if abs(arr[i, j] - a.get(o, 0.0)) > tol_abs:
+                        if abs(arr[i, j] - a.get(o, 0.0)) > (tol_abs if (sum(o) or not lossy) else tol_vac):
                             bad = (f"analyzer p({inputs[i].s}->{list(o)}) = {arr[i, j]:.9f}, sampler gives "
                                    f"{a.get(o, 0.0):.9f} for the corresponding heralded output")
                             break
@@ -239,7 +242,7 @@ def run(ctx):
                     ctx.violation(bad, case=case, mechanism="analyzer_vs_sampler", monitor="relation checker")
                 ctx.count("rel_performance")
                 perf = float(np.mean([sum(a.values()) for a in acc]))
-                if abs(an_res.performance - perf) > tol_abs * max(1, len(acc[0]) if acc else 1):
+                if abs(an_res.performance - perf) > tol_abs * max(1, len(outs)) + (tol_vac if lossy else 0):
                     ctx.violation(f"analyzer performance {an_res.performance:.9f}, mean accepted total {perf:.9f}",
                                   case=case, mechanism="analyzer_performance", monitor="relation checker")
                 if hasattr(an_res, "error_rate"):
@@ -268,7 +271,7 @@ def run(ctx):
                     errs.append(1 - sum(acc[i].get(tuple(o.s), 0.0) for o in e) / tot)
                 er = float(np.mean(errs))
                 min_tot = min(sum(a.values()) for a in acc)
-                if not abs(getattr(an_res2, "error_rate", np.nan) - er) <= 1e-6 + 4 * trunc * max(len(a) for a in acc) / min_tot:
+                if not abs(getattr(an_res2, "error_rate", np.nan) - er) <= 1e-6 + 4 * (trunc * max(1, len(an_res2.outputs)) + (tol_vac if lossy else 0)) / min_tot:
                     ctx.violation(f"analyzer error_rate {getattr(an_res2, 'error_rate', None)}, "
                                   f"1 - accepted-and-expected fraction = {er:.9f}", case=case,
                                   mechanism="analyzer_error_rate", monitor="relation checker")
@@ -282,7 +285,7 @@ def run(ctx):
                 if tot > 1e-6:
                     keys = set(a0) | set(qs_dist)
                     worst = max(abs(a0.get(q, 0.0) / tot - qs_dist.get(q, 0.0)) for q in keys)
-                    if worst > 1e-6 + 4 * trunc * max(1, len(keys)) / tot:
+                    if worst > 1e-6 + 4 * (1e-9 + trunc) * max(1, len(keys)) / tot:
                         q = max(keys, key=lambda q: abs(a0.get(q, 0.0) / tot - qs_dist.get(q, 0.0)))
                         ctx.violation(f"quick sampler p({list(q)}) = {qs_dist.get(q, 0.0):.9f}, conditioned and "
                                       f"renormalised sampler distribution gives {a0.get(q, 0.0) / tot:.9f}",
@@ -335,7 +338,7 @@ def run(ctx):
                     if q2 is not None and tot2 > 1e-6:
                         keys = set(a2) | set(q2)
                         worst = max(abs(a2.get(q, 0.0) / tot2 - q2.get(q, 0.0)) for q in keys)
-                        if worst > 1e-6 + 4 * trunc * max(1, len(keys)) / tot2:
+                        if worst > 1e-6 + 4 * (1e-9 + trunc) * max(1, len(keys)) / tot2:
                             ctx.violation(f"after adding rule ({m_add}, {nums}) to its PostSelection in place the quick "
                                           f"sampler differs from the conditioned sampler distribution by {worst:.3g}",
                                           case=case, mechanism="quick_vs_sampler_after_in_place_rule",
